@@ -107,6 +107,22 @@ pub fn scenarios(quick: bool) -> Vec<Scenario> {
         programs: vec![vec![], s(&["replicate-increment t k 1", "replicate t k -1 a1"]), s(&["increment k"])],
         sub_keys: vec!["k"],
     });
+    // a newer-strategy database: a versioned write with a stale version is resolved, and the one
+    // issued last is stored; stored it is a mutation like any other (one writer, so every write
+    // is the most recently issued one when it arrives)
+    let admin_tok = || vec![format!("auth {} {}", USER, PWD), tok()];
+    out.push(Scenario {
+        name: "newer-db-stale-versioned-writes",
+        setup: Setup { strategy: "newer", init: s(&["set k 0", "set k 0", "set j 0"]), session_init: vec![vec![tok(), "watch k".into()], admin_tok(), vec![tok()]], check_replica: false },
+        programs: vec![vec![], s(&["set-safe k 0 a1", "replicate t k 1 a2", "rp 45 replicate t k 0 a3"]), s(&["watch j", "unwatch-all"])],
+        sub_keys: vec!["k"],
+    });
+    out.push(Scenario {
+        name: "newer-db-stale-versioned-writes",
+        setup: Setup { strategy: "newer", init: s(&["set k 0", "set k 0", "set j 0"]), session_init: vec![vec![tok()], admin_tok(), vec![tok()]], check_replica: false },
+        programs: vec![s(&["watch k"]), s(&["set-safe k 0 a1", "set-safe k 0 a2"]), s(&["set j x1"])],
+        sub_keys: vec!["k"],
+    });
     if !quick {
         out.push(Scenario {
             name: "two-subscribers-two-writers",
